@@ -170,7 +170,11 @@ impl Default for StepExec {
 impl StepExec {
     pub fn new() -> Self {
         FOREIGN.with(|f| f.borrow_mut().clear());
-        StepExec { acts: Vec::new(), watchdog: Duration::from_secs(20), fallback: Duration::from_millis(400) }
+        // Both limits are real-time safety nets which no run on a healthy tree reaches (evidence:
+        // fallback_classifications == 0): they are generous because a reply of a SQLite worker
+        // thread can take seconds when the machine is overloaded, and classifying such a call as
+        // "parked" lets other activities run into resources the in-flight call still holds.
+        StepExec { acts: Vec::new(), watchdog: Duration::from_secs(60), fallback: Duration::from_secs(20) }
     }
 
     pub fn add(&mut self, name: &str, policy: Policy, fut: impl Future<Output = ()> + 'static) -> usize {
